@@ -322,7 +322,29 @@ class SRows:
             return (eng.snum(self.nz(), "int"),) + self.inner
         if name == "dtype":
             return self.dtype if self.dtype is not None else npmodels.dtype_of_kind(self.kind)
+        if name == "reshape":
+            return NativeMethod(SRows._reshape, self, name)
         raise Unsupported(f"attribute {name} of an array with a symbolic number of rows")
+
+    @staticmethod
+    def _reshape(eng, recv, args, kwargs):
+        """a.reshape(d0, *rest) that keeps the rows: the per-row size is unchanged, d0 must be the number of rows"""
+        shp = tuple(args[0]) if len(args) == 1 and isinstance(args[0], (tuple, list)) else tuple(args)
+        if not shp or any(isinstance(d, Sym) for d in shp[1:]):
+            raise Unsupported("reshape of an array with a symbolic number of rows: only (rows, *concrete)")
+        size = 1
+        for d in shp[1:]:
+            size *= int(d)
+        if size != len(recv.cells):
+            raise Unsupported("reshape that regroups the rows of an array with a symbolic number of rows")
+        d0 = shp[0]
+        if not (isinstance(d0, int) and d0 == -1):
+            if not eng.branch(eng.sbool(to_z3(d0, "int") == recv.nz())):
+                raise ProgExc(ValueError, "cannot reshape array")
+        used(eng, "reshape keeping the first axis: same entries, row-major (a view)")
+        v = SRows(recv.cells, recv.n, tuple(int(d) for d in shp[1:]), recv.kind, recv.dtype)
+        v.uid = recv.uid
+        return v
 
     def __pyvc_getitem__(self, eng, idx):
         if isinstance(idx, tuple) and len(idx) == 2 and len(self.inner) == 1 and isinstance(idx[0], slice) and idx[0] == slice(None) and isinstance(idx[1], int) and not isinstance(idx[1], bool):
